@@ -333,10 +333,26 @@ def _ddpg_like(name, sc, train, double_q, extra, lap=False):
     # not recorded) while the step count starts at 0 - the documented warm-up counts steps, not stored rows
     prefill(buf, rb.LAP if lap else rb.ReplayBuffer, sc, np.zeros(na, dtype=np.float32))
     logger = recording_logger(rec)
+    # scenario T: a continued run that hands in only ONE of the two optional targets (each is documented on its own as
+    # "only has to be set if we want to continue training from an old state"); the given target differs from the live
+    # network (every float leaf moved by 1/8), is watched and must follow the target rules; the other one is the
+    # routine's own copy and not observable
+    given = sc.get("given_targets", "both")
+    tnames = [t for t in ("policy_target", "q_target") if given in ("both", t.split("_")[0])]
+    if given != "both":
+        import jax
+        import jax.numpy as jnp
+
+        for t in (ptgt, qtgt):
+            st = nnx.state(t)
+            nnx.update(t, jax.tree.map(lambda l: l + 0.125 if jnp.issubdtype(jnp.asarray(l).dtype, jnp.floating) else l, st))
     for k, v in dict(policy=policy, q=q, policy_target=ptgt, q_target=qtgt).items():
-        rec.watch_module(k, v)
-    rec.watch_law("policy_target", ptgt, policy, 0.25)
-    rec.watch_law("q_target", qtgt, q, 0.25)
+        if k in ("policy", "q") or k in tnames:
+            rec.watch_module(k, v)
+    if "policy_target" in tnames:
+        rec.watch_law("policy_target", ptgt, policy, 0.25)
+    if "q_target" in tnames:
+        rec.watch_law("q_target", qtgt, q, 0.25)
     _PROBE["fn"] = obs_probe(rec)
     from rl_blox.blox.function_approximator.policy_head import DeterministicTanhPolicy
 
@@ -344,7 +360,8 @@ def _ddpg_like(name, sc, train, double_q, extra, lap=False):
     # every single target update follows tau = 1/4, also with several gradient steps per environment step (`gsteps`)
     kwargs = dict(seed=sc["seed"], total_timesteps=sc["budget"], gamma=0.5, tau=0.25, batch_size=sc["batch"], learning_starts=sc["warm"],
                   gradient_steps=int(sc.get("gsteps", 1)),
-                  replay_buffer=buf, policy_target=ptgt, q_target=qtgt, logger=logger, global_step=sc.get("start", 0), progress_bar=False)
+                  replay_buffer=buf, policy_target=ptgt if "policy_target" in tnames else None, q_target=qtgt if "q_target" in tnames else None,
+                  logger=logger, global_step=sc.get("start", 0), progress_bar=False)
     if sc.get("eplimit") and name != "td3_lap":
         kwargs["total_episodes"] = sc["eplimit"]
     kwargs.update(extra)
@@ -354,6 +371,8 @@ def _ddpg_like(name, sc, train, double_q, extra, lap=False):
     else:  # TD3 / TD3+LAP: critic every gradient step, actor and both targets iff step % policy_delay == 0
         _rules = [dict(comps=["q"], counter="always", after=sc["warm"]),
                   dict(comps=["policy", "policy_target", "q_target"], counter="step", mod=pd, rem=0, after=sc["warm"])]
+    for r_ in _rules:
+        r_["comps"] = [c for c in r_["comps"] if c in ("policy", "q") or c in tnames]
     try:
         res, err = guarded(lambda: train(env, policy, popt, q, qopt, **kwargs))
     finally:
@@ -362,14 +381,16 @@ def _ddpg_like(name, sc, train, double_q, extra, lap=False):
         jax.effects_barrier()
         _PROBE["fn"] = None
     cfg = base_cfg(name, sc, warmlearn=sc["warm"], warmact=sc["warm"], explore_only_in_warmup=True, policy_probe=True, ret_applicable=True,
-                   trained=["policy", "q"], targets=["policy_target", "q_target"], pairs=[["policy_target", "policy"], ["q_target", "q"]], ulpk=2, eplimit=sc.get("eplimit", 0) if name != "td3_lap" else 0,
+                   trained=["policy", "q"], targets=list(tnames), pairs=[[t, t.split("_")[0]] for t in tnames], ulpk=2, eplimit=sc.get("eplimit", 0) if name != "td3_lap" else 0,
                    rules=_rules, expl_noise8=int(round(8 * kwargs["exploration_noise"])), gsteps=kwargs["gradient_steps"])
     ret = None
     if res is not None:
         ret = getattr(res, "global_step", None)
         if ret is None:
             ret = getattr(res, "steps_trained", None)
-    return finish(rec, name, sc, cfg, returned=ret, final=final_digests(policy=policy, q=q, policy_target=ptgt, q_target=qtgt), error=err, buffer=buf, result=res)
+    fin = dict(policy=policy, q=q)
+    fin.update({t: m_ for t, m_ in (("policy_target", ptgt), ("q_target", qtgt)) if t in tnames})
+    return finish(rec, name, sc, cfg, returned=ret, final=final_digests(**fin), error=err, buffer=buf, result=res)
 
 
 @routine("ddpg")
@@ -398,6 +419,7 @@ def run_td3_lap(sc):
 VALUE_BASED = {"dqn", "nature_dqn", "ddqn", "ddqn_per", "q_learning", "sarsa", "double_q_learning", "monte_carlo", "dynaq"}
 PREFILLED = {"ddpg", "td3", "td3_lap", "sac", "td7", "dqn", "nature_dqn", "ddqn", "ddqn_per"}
 TABULAR = {"q_learning", "sarsa", "double_q_learning", "monte_carlo", "dynaq"}
+PARTIAL_TARGETS = {"ddpg", "td3", "td3_lap"}  # routines with two independently optional target arguments
 
 
 def scenarios(tier, seed, routine=None):
@@ -438,6 +460,12 @@ def scenarios(tier, seed, routine=None):
     if routine in PREFILLED:
         # a buffer that already holds 6 rows is handed to a run that starts at step 0 with a warm-up of 5 steps
         scs.append(dict(base, label="P", script=[(3, "term"), (2, "trunc"), (4, "term")], budget=16, start=0, eplimit=0, warm=5, prefill=6))
+    if routine in PARTIAL_TARGETS:
+        scs.append(dict(base, label="T", script=[(3, "term"), (2, "trunc"), (4, "term")], budget=15, start=4, eplimit=0, warm=3,
+                        given_targets="q" if routine != "td3_lap" else "policy"))
+        if tier == "thorough":
+            scs.append(dict(base, label="U", script=[(2, "trunc"), (5, "term")], budget=14, start=6, eplimit=0, warm=2,
+                            given_targets="policy" if routine != "td3_lap" else "q", gsteps=2))
     if tier == "thorough":
         scs += [
             dict(base, label="D", script=[(1, "both"), (1, "trunc"), (5, "term")], budget=24, start=2, eplimit=5, warm=7, cap=50, gsteps=3),
